@@ -321,11 +321,10 @@ done:
    * We will also ignore ALL errors when trying to resolve localhost, such
    * as permissions errors reading /etc/hosts or a malformed /etc/hosts.
    *
-   * Also, just because the query itself returned success from /etc/hosts
-   * lookup doesn't mean it returned everything it needed to for all requested
-   * address families. As long as we're not on a critical out of memory
-   * condition pass it through to fill in any other address classes. */
-  if (status != ARES_ENOMEM && ares_is_localhost(name)) {
+   * A hostent holds addresses of one family only, so once /etc/hosts produced
+   * one there is nothing left to fill in: going through the loopback rule as
+   * well would append the loopback address a second time. */
+  if (status != ARES_ENOMEM && *host == NULL && ares_is_localhost(name)) {
     return ares_hostent_localhost(name, family, host);
   }
 
